@@ -588,6 +588,10 @@ def _isinstance(ex, st, args, kw, node):
         return z3.BoolVal(v.cls in names)
     if isinstance(v, (objects.SLRef, LRef)):
         return z3.BoolVal("list" in names)
+    if isinstance(v, StrV):
+        return z3.BoolVal("str" in names)
+    if isinstance(v, (Tup, tuple)):
+        return z3.BoolVal("tuple" in names)
     raise Undecided("isinstance of this value")
 
 
